@@ -396,6 +396,54 @@ pub fn main(args: &[String]) {
             });
             rep.traces = rep.evaluations;
         }
+        Some("linemetrics") => {
+            // LineMetrics.tla: fonts with / without hhea and OS/2 and every combination of zero / non-zero line metrics;
+            // skrifa's Metrics (unscaled) against the decision table
+            use skrifa::MetadataProvider;
+            use write_fonts::tables::{head::Head, hhea::Hhea, os2::{Os2, SelectionFlags}};
+            let path = arg_after(args, "--cases").expect("--cases");
+            fvcore::tlc_stream(&path, &["LINECASE"], |_, c| {
+                rep.evaluations += 1;
+                let f = &c["font"];
+                let i = |k: &str| f[k].as_i64().unwrap();
+                let mut b = write_fonts::FontBuilder::new();
+                b.add_table(&Head { units_per_em: 1000, magic_number: 0x5F0F3CF5, ..Default::default() }).unwrap();
+                if f["hasHhea"] == true {
+                    b.add_table(&Hhea::new((i("ha") as i16).into(), (i("hd") as i16).into(), (i("hg") as i16).into(), 1000.into(), 0.into(), 0.into(), 1000.into(), 1, 0, 0, 1)).unwrap();
+                }
+                if f["hasOs2"] == true {
+                    let os2 = Os2 {
+                        fs_selection: if f["useTypo"] == true { SelectionFlags::USE_TYPO_METRICS } else { SelectionFlags::empty() },
+                        s_typo_ascender: i("ta") as i16, s_typo_descender: i("td") as i16, s_typo_line_gap: i("tg") as i16,
+                        us_win_ascent: i("wa") as u16, us_win_descent: i("wd") as u16,
+                        ..Default::default()
+                    };
+                    b.add_table(&os2).unwrap();
+                }
+                let font = b.build();
+                let case = json!({"kind": "line-metrics-case", "font": f});
+                let got = guarded(|| {
+                    let fr = read_fonts::FontRef::new(&font).unwrap();
+                    let m = fr.metrics(skrifa::instance::Size::unscaled(), skrifa::instance::LocationRef::default());
+                    vec![m.ascent as i64, m.descent as i64, m.leading as i64]
+                });
+                match got {
+                    Err(p) => rep.violation(&format!("font metrics panicked: {p}"), case),
+                    Ok(g) => {
+                        if json!(g) == c["line"] {
+                            rep.distinct += 1;
+                        } else {
+                            // which metrics are preferred is not demanded by the listed properties: reported, not a violation
+                            rep.add("outcome_differs_from_model", 1);
+                            if rep.samples.len() < 4 {
+                                rep.sample(json!({"case": case, "real": g, "model": c["line"]}));
+                            }
+                        }
+                    }
+                }
+            });
+            rep.traces = rep.evaluations;
+        }
         Some("deep") => {
             let exe = std::env::current_exe().unwrap();
             for what in ["paint", "composite"] {
